@@ -655,7 +655,7 @@ def setup(ctx):
 
 
 def plan(tier, seed, n):
-    per, nops = (40, 25) if tier == 'quick' else (1900, 40)
+    per, nops = (150, 25) if tier == 'quick' else (2500, 40)
     return [{'n': per, 'nops': nops} for _ in range(n)]
 
 
